@@ -20,6 +20,7 @@ type HarnessCfg struct {
 	MapOrderFork  bool
 	Ticks         int
 	NowMonotone   bool
+	FirstRangeInOrder bool
 }
 
 func defaultHarnessCfg() *HarnessCfg {
